@@ -1578,7 +1578,14 @@ impl<'a> B<'a> {
                     let h = l + self.rng.below((hmax - l + 1).min(62));
                     (l, h)
                 };
-                let mask = if be {
+                let mask = if self.rng.chance(1, 6) {
+                    // anything (also inverted / out-of-register / 63- and 64-bit wide fields): full `BitMask` domain
+                    if self.rng.chance(1, 3) {
+                        Mask::Bit(self.rng.below(70))
+                    } else {
+                        Mask::Range(self.rng.below(70), self.rng.below(70))
+                    }
+                } else if be {
                     if l == h && self.rng.bool() {
                         Mask::Bit(bits - 1 - l)
                     } else {
@@ -2134,6 +2141,87 @@ pub fn c03_oracles(g: &Graph, im: &mut Impl, op: &Op, ans: &Ans, log_before: usi
             }
             None
         }
+        // ── Boolean: On / Off ──
+        (Op::BoolSet(_, x), Kind::Boolean { value, on, off, .. }) => {
+            if ans.is_ok() {
+                rep.count("oracle:bool-set");
+                let want = if *x { *on } else { *off };
+                match value {
+                    Son::Slot(_) => {
+                        if on != off && im.probe(&Op::BoolValue(n)) != Ans::Bool(*x) {
+                            return Some(("bool".into(), format!("wrote {x} but the node does not read back {x}")));
+                        }
+                    }
+                    Son::Node(p) => {
+                        if matches!(g.kind(*p), Some(Kind::Integer { vk: VK::Value(_), .. })) && im.probe_num_as_int(g, *p) != Some(want) {
+                            return Some(("bool".into(), format!("writing {x} must store {} {want} in N{p}", if *x { "OnValue" } else { "OffValue" })));
+                        }
+                    }
+                }
+            }
+            None
+        }
+        (Op::BoolValue(_), Kind::Boolean { value: Son::Node(p), on, off, .. }) => {
+            if let Some(v) = im.probe_num_as_int(g, *p) {
+                rep.count("oracle:bool-read");
+                let want = if v == *on {
+                    Ans::Bool(true)
+                } else if v == *off {
+                    Ans::Bool(false)
+                } else {
+                    Ans::Err("InvalidNode")
+                };
+                if *ans != want {
+                    return Some(("bool".into(), format!("underlying value {v} (On {on}, Off {off}): expected {}, got {}", want.show(), ans.show())));
+                }
+            }
+            None
+        }
+        // ── Command: execute writes the command value; is_done compares ──
+        (Op::CmdExecute(_), Kind::Command { value: Son::Node(p), cmd, .. }) | (Op::CmdIsDone(_), Kind::Command { value: Son::Node(p), cmd, .. }) => {
+            let cv: Option<i64> = match cmd {
+                Son::Slot(s) => match &g.slots[*s] {
+                    SlotInit::I(v) => Some(*v),
+                    _ => None,
+                },
+                Son::Node(q) => im.probe_num_as_int(g, *q),
+            };
+            match op {
+                Op::CmdExecute(_) => {
+                    let cv = pre.cmd_value;
+                    if ans.is_ok() && matches!(g.kind(*p), Some(Kind::Integer { vk: VK::Value(_), .. })) {
+                        rep.count("oracle:command-execute");
+                        let got = im.probe_num_as_int(g, *p);
+                        if cv.is_none() || got != cv {
+                            return Some(("command".into(), format!("execute must write the command value {cv:?} to N{p}, which now holds {got:?}")));
+                        }
+                    }
+                }
+                _ => {
+                    let readable = if g.is_int(*p) || g.is_float(*p) || g.is_enum(*p) { im.probe(&Op::IsReadable(*p)) } else { Ans::Bool(false) };
+                    let rv = im.probe_num_as_int(g, *p);
+                    rep.count("oracle:command-is-done");
+                    let want = match (readable, cv, rv) {
+                        (Ans::Bool(false), _, _) => Some(Ans::Bool(true)),
+                        (Ans::Bool(true), Some(c), Some(r)) => Some(Ans::Bool(c != r)),
+                        _ => None,
+                    };
+                    if let Some(w) = want {
+                        if *ans != w {
+                            return Some(("command".into(), format!("is_done: target readable, command value {cv:?}, target value {rv:?}: expected {}, got {}", w.show(), ans.show())));
+                        }
+                    }
+                }
+            }
+            None
+        }
+        (Op::CmdIsDone(_), Kind::Command { value: Son::Slot(_), .. }) => {
+            rep.count("oracle:command-is-done");
+            if *ans != Ans::Bool(true) {
+                return Some(("command".into(), "a command over an immediate value is always done".into()));
+            }
+            None
+        }
         // ── address = Σ address elements; length from Length / pLength ──
         (Op::RegAddress(_), _) | (Op::RegLength(_), _) | (Op::RegRead(..), _) if k.reg().is_some() => {
             let r = k.reg().unwrap();
@@ -2214,6 +2302,8 @@ pub fn c03_oracles(g: &Graph, im: &mut Impl, op: &Op, ans: &Ans, log_before: usi
 #[derive(Default)]
 pub struct PreState {
     pub sel_value: Option<i64>,
+    /// command value as it was before `execute`
+    pub cmd_value: Option<i64>,
 }
 
 pub fn pre_state(g: &Graph, im: &mut Impl, op: &Op) -> PreState {
@@ -2225,6 +2315,15 @@ pub fn pre_state(g: &Graph, im: &mut Impl, op: &Op) -> PreState {
                 p.sel_value = Some(i);
             }
         }
+    }
+    if let (Op::CmdExecute(_), Some(Kind::Command { cmd, .. })) = (op, g.kind(op.node())) {
+        p.cmd_value = match cmd {
+            Son::Slot(s) => match &g.slots[*s] {
+                SlotInit::I(v) => Some(*v),
+                _ => None,
+            },
+            Son::Node(q) => im.probe_num_as_int(g, *q),
+        };
     }
     p
 }
